@@ -370,7 +370,7 @@ class symeig_torchfcn(torch.autograd.Function):
                                **ctx.bck_config)  # (*BAM, na, neig)
 
             # orthogonalize gevecs w.r.t. evecs
-            gevecsA = _ortho(gevecs, evecs, D=None, M=M, mright=True)
+            gevecsA = _ortho(gevecs, evecs, D=idx_degen, M=M, mright=True)
 
         # accummulate the gradient contributions
         gaccumA = gevalsA + gevecsA
